@@ -101,7 +101,10 @@ macro_rules! angle_systems {
                     if !(m.is_zero() && n == turn) {
                         eq_s::<T>(ctx, &key(concat!($label, "/normalize")), n, m);
                     }
-                    same_slice(ctx, &key(concat!($label, "/normalize/idempotent")), &[A(n).normalize().0], &[n]);
+                    // a normalised angle is its own normal form (at the two ends of the closed interval: one of the ends)
+                    let nn = A(n).normalize().0;
+                    let ends = |x: T| x.is_zero() || x == turn;
+                    ctx.check(nn == n || (ends(n) && ends(nn)), &key(concat!($label, "/normalize/idempotent")), || format!("normalize({:?}) = {:?}, normalised again {:?}", a, n, nn));
                 }
                 // normalize_signed in [-turn/2, turn/2]
                 let s = ang.normalize_signed().0;
@@ -111,7 +114,9 @@ macro_rules! angle_systems {
                 let o = ang.opposite().0;
                 let via = (ang + A::<T>::turn_div_2()).normalize().0;
                 if T::EXACT {
-                    same_slice(ctx, &key(concat!($label, "/opposite")), &[o], &[via]);
+                    // (at odd multiples of the half turn: either end of the closed interval)
+                    let ends = |x: T| x.is_zero() || x == turn;
+                    ctx.check(o == via || (ends(o) && ends(via)), &key(concat!($label, "/opposite")), || format!("opposite({:?}) = {:?}, normalize(a + half turn) = {:?}", a, o, via));
                 } else {
                     // the same number up to rounding (or the other end of the closed interval)
                     ctx.check(whole_turns::<T>(o - via, turn, a.f().abs()), &key(concat!($label, "/opposite")), || format!("opposite({:?}) = {:?}, normalize(a + half turn) = {:?}", a, o, via));
@@ -164,7 +169,8 @@ macro_rules! angle_systems {
                                 _ => A::<T>::turn_div_6().0,
                             };
                             let back = part * T::int(kk);
-                            let ok = if T::EXACT { back == turn } else { (back.f() - turn.f()).abs() <= 4.0 * T::eps() * turn.f() };
+                            // (the constants are roundings of f64 numbers in every tier: an equation up to that rounding)
+                            let ok = back == turn || (back.f() - turn.f()).abs() <= 4.0 * (if T::EXACT { f64::EPSILON } else { T::eps() }) * turn.f();
                             ctx.check(ok, &key(concat!($label, "/turn_div_k")), || format!("turn_div_{kk}() * {kk} = {:?}, full_turn = {:?}", back, turn));
                             // and it is the k-th part, not some other
                             let ratio = turn.f() / part.f();
